@@ -58,6 +58,8 @@ def absent_label(rng, lab, kind, where=None):
 
 def np_labels(lab, kind, ldtype=None):
     if kind == 'i':
+        if ldtype is None and len(lab) and max(lab) >= 2 ** 63:
+            ldtype = 'uint64'
         return np.array(lab, dtype=ldtype or np.int64)
     if kind == 'f':
         return np.array(lab, dtype=ldtype or np.float64)
@@ -193,3 +195,13 @@ def build(sp, meta=True, as_list=False):
         for ax in a.axes:
             ax.is_monotonic()
     return a
+
+
+def make_huge(sp, rng, p=0.5):
+    """labels of uint64 axes moved beyond 2**63 (ids, hashes, nanosecond counters): exact only as unsigned 64-bit integers"""
+    done = False
+    for i, lt in enumerate(sp.get("ldtypes") or []):
+        if lt == 'uint64' and rng.random() < p:
+            sp["labels"][i] = [int(v) + 2 ** 63 for v in sp["labels"][i]]
+            done = True
+    return done
